@@ -317,7 +317,10 @@ class Ctx:
         d = stage or self.stage(fam)
         shutil.copy(trace_path, os.path.join(d, 'trace.ndjson'))
         total = sum(1 for l in open(trace_path) if l.strip())
-        args = ['-workers', '1', '-metadir', os.path.join(d, 'md-tr' + str(time.time())), '-config', cfg, '-noGenerateSpecTE', module]
+        args = ['-workers', '1', '-metadir', os.path.join(d, 'md-tr' + str(time.time())), '-config', cfg, '-noGenerateSpecTE']
+        if dfs:
+            args += ['-checkpoint', '0']  # StateDeque cannot checkpoint (TLC throws at the 30-minute checkpoint)
+        args.append(module)
         with _Slot():
             t0 = time.time()
             rc, out = sh(_tlc_cmd(args, heap=heap, dfs=dfs), cwd=d, timeout=timeout)
